@@ -174,9 +174,17 @@ class HistogramBase(abc.ABC):
         else:
             # Values the content type cannot hold promote it (as the setter does) or,
             # if the type was asked for, are refused
-            self.errors2 = self._cast_given(
+            given_errors2 = self._cast_given(
                 np.array(errors2), self.dtype, strict=frequencies is not None and dtype_given
             )
+            if given_errors2.dtype != self.dtype:
+                # (Nothing else to convert yet: the missed values come later)
+                self._dtype, _ = self._eval_dtype(
+                    np.promote_types(self.dtype, given_errors2.dtype)
+                )
+                self._frequencies = self._frequencies.astype(self._dtype)
+                given_errors2 = given_errors2.astype(self._dtype)
+            self.errors2 = given_errors2
 
         self.keep_missed = keep_missed
         # Note: missed are dealt differently in 1D/ND cases
